@@ -33,7 +33,37 @@ func deq(batch int, ttl time.Duration) Op {
 }
 func lease(msg string, attempt int) LeaseRef { return LeaseRef{Msg: msg, Attempt: attempt} }
 
+// manyGroups: more (route, target) groups queued at once than any per-group top-N a
+// store keeps for its statistics; the oldest and the earliest-runnable message sit in
+// the smallest groups, and statistics are read after every change of either.
+func manyGroups(groups int) Directed {
+	var sc []Op
+	e := func(id string, g int) Op {
+		return Op{Kind: KEnqueue, Envs: []queue.Envelope{{ID: id, Route: fmt.Sprintf("/g%d", g/4), Target: fmt.Sprintf("https://t%d.example/hook", g%4), Payload: []byte("p-" + id)}}}
+	}
+	sc = append(sc, e("old", 0), adv(time.Second), Op{Kind: KStats})
+	for g := 1; g < groups; g++ {
+		for k := 0; k < 2+g%2; k++ {
+			sc = append(sc, e(fmt.Sprintf("m%d-%d", g, k), g), adv(time.Millisecond))
+		}
+	}
+	sc = append(sc, Op{Kind: KStats}, adv(time.Minute), Op{Kind: KStats})
+	// the oldest leaves: the next oldest is alone in no group, statistics move on
+	sc = append(sc, Op{Kind: KCancel, IDs: []string{"old"}}, Op{Kind: KStats})
+	// a late single message in a new smallest group, scheduled before everything else is due again
+	sc = append(sc, e("late", groups), Op{Kind: KStats}, Op{Kind: KRequeue, IDs: []string{"old"}}, Op{Kind: KStats})
+	return Directed{Name: fmt.Sprintf("stats-with-%d-groups", groups), Cfg: vlib.StoreCfg{}, Script: sc}
+}
+
 func DirectedScenarios() []Directed {
+	out := directedScenarios()
+	for _, g := range []int{11, 12, 26} {
+		out = append(out, manyGroups(g))
+	}
+	return out
+}
+
+func directedScenarios() []Directed {
 	dropOldest2 := vlib.StoreCfg{MaxDepth: 2, DropPolicy: "drop_oldest"}
 	dropOldest3 := vlib.StoreCfg{MaxDepth: 3, DropPolicy: "drop_oldest"}
 	batch := func(ids ...string) Op {
